@@ -140,10 +140,18 @@ def ask(spec: Dict[str, Any]) -> Any:
     assert _REQ_W is not None and _RES_R is not None
     with _PIPE_LOCK:  # one request/response at a time, whatever thread asks
         _write_msg(_REQ_W, key.encode())
-        try:
-            res = json.loads(_read_msg(_RES_R))
-        except EOFError as exc:
-            raise GoldenError("golden zygote died") from exc
+        want = hashlib.sha256(key.encode()).hexdigest()[:16]
+        # (the pipe is shared with earlier run children of this worker: one killed by its watchdog
+        # between request and response leaves its answer behind; the zygote answers in order, so
+        # answers to other requests ahead of ours are dropped)
+        for _ in range(16):
+            try:
+                res = json.loads(_read_msg(_RES_R))
+            except EOFError as exc:
+                raise GoldenError("golden zygote died") from exc
+            if not res["ok"] or res.get("echo") == want:
+                break
+            STATS["resync"] = STATS.get("resync", 0) + 1
     if not res["ok"]:
         raise GoldenError("golden run failed in the harness:\n" + res["error"])
     if res.get("echo") != hashlib.sha256(key.encode()).hexdigest()[:16]:
